@@ -108,6 +108,7 @@ type opSpec struct {
 	conc     bool // may run concurrently with other operations on one Client
 	polls    bool // consumes opPlan.Polls
 	finalize bool
+	noBody   bool // the method does not decode the success body
 	run      func(ctx context.Context, c *acme.Client, s *fakeCA, p *opPlan) opResult
 }
 
@@ -186,7 +187,7 @@ var opSpecs = []opSpec{
 		}
 		return opResult{Marker: tokMarker(z.Challenges[0].Token)}
 	}},
-	{kind: "RevokeAuthorization", conc: true, run: func(ctx context.Context, c *acme.Client, s *fakeCA, p *opPlan) opResult {
+	{kind: "RevokeAuthorization", conc: true, noBody: true, run: func(ctx context.Context, c *acme.Client, s *fakeCA, p *opPlan) opResult {
 		return opResult{Err: c.RevokeAuthorization(ctx, s.base+"/authz/"+p.ID)}
 	}},
 	{kind: "Accept", conc: true, run: func(ctx context.Context, c *acme.Client, s *fakeCA, p *opPlan) opResult {
@@ -223,7 +224,7 @@ var opSpecs = []opSpec{
 		}
 		return opResult{Marker: strings.TrimPrefix(string(der[0]), "leaf-")}
 	}},
-	{kind: "ListCertAlternates", conc: true, run: func(ctx context.Context, c *acme.Client, s *fakeCA, p *opPlan) opResult {
+	{kind: "ListCertAlternates", conc: true, noBody: true, run: func(ctx context.Context, c *acme.Client, s *fakeCA, p *opPlan) opResult {
 		alts, err := c.ListCertAlternates(ctx, s.base+"/cert/"+p.ID)
 		if err != nil {
 			return opResult{Err: err}
@@ -233,17 +234,17 @@ var opSpecs = []opSpec{
 		}
 		return opResult{Marker: path.Base(alts[0])}
 	}},
-	{kind: "RevokeCert", conc: true, run: func(ctx context.Context, c *acme.Client, s *fakeCA, p *opPlan) opResult {
+	{kind: "RevokeCert", conc: true, noBody: true, run: func(ctx context.Context, c *acme.Client, s *fakeCA, p *opPlan) opResult {
 		var k crypto.Signer
 		if p.ID[len(p.ID)-1]%2 == 0 {
 			k = ecKeys[1] // revocation authenticated by the certificate key (JWK form)
 		}
 		return opResult{Err: c.RevokeCert(ctx, k, []byte("cert-"+p.ID), acme.CRLReasonSuperseded)}
 	}},
-	{kind: "DeactivateReg", conc: true, run: func(ctx context.Context, c *acme.Client, s *fakeCA, p *opPlan) opResult {
+	{kind: "DeactivateReg", conc: true, noBody: true, run: func(ctx context.Context, c *acme.Client, s *fakeCA, p *opPlan) opResult {
 		return opResult{Err: c.DeactivateReg(ctx)}
 	}},
-	{kind: "AccountKeyRollover", conc: false, run: func(ctx context.Context, c *acme.Client, s *fakeCA, p *opPlan) opResult {
+	{kind: "AccountKeyRollover", conc: false, noBody: true, run: func(ctx context.Context, c *acme.Client, s *fakeCA, p *opPlan) opResult {
 		return opResult{Err: c.AccountKeyRollover(ctx, ecKeys[int(p.ID[len(p.ID)-1])%len(ecKeys)])}
 	}},
 }
@@ -335,6 +336,9 @@ func genOp(r *rand.Rand, id string, spec *opSpec, phase, force string) *opCase {
 			p.Polls = append(p.Polls, mon.Pick(r, []string{"pending", "processing"}))
 		}
 		fin := mon.Pick(r, []string{"valid", "valid", "ready", "invalid"})
+		if strings.Contains(spec.kind, "Authorization") {
+			fin = mon.Pick(r, []string{"valid", "valid", "invalid"}) // the only final authorization states WaitAuthorization stops at
+		}
 		if spec.kind == "CreateOrderCert" && r.IntN(3) > 0 {
 			fin = "valid"
 		}
@@ -359,7 +363,7 @@ func genOp(r *rand.Rand, id string, spec *opSpec, phase, force string) *opCase {
 	switch x := r.IntN(100); {
 	case x < 12 && force == "":
 		p.Post = append(p.Post, genTerminal(r))
-	case x < 17 && force == "":
+	case x < 17 && force == "" && !spec.noBody:
 		p.Post = append(p.Post, action{Kind: "ok", Garbage: true})
 	case x < 32:
 		p.Post = append(p.Post, action{Kind: "ok", NoNonce: true})
